@@ -1,8 +1,8 @@
 SPECIFICATION Spec
 CONSTANTS
-  N0 = 4
-  Workers = {1, 2, 3}
-  Kinds = {"seq"}
+  N0 = 3
+  Workers = {1, 2}
+  Kinds = {"set"}
   KeySet = {1, 2}
   Gens = 2
 INVARIANTS NoTornPopulation SizePreserved CallsMatchSize AllFresh OwnRandomness FailureAtomic NoPartialCommit ErrIffFailure SerialDiscipline
